@@ -625,7 +625,13 @@ func ruleR056(p *Program, r *Report) {
 	// loop header: the nearest block that dominates the call and is reachable from it
 	var header *ssa.BasicBlock
 	for _, b := range fn.Blocks {
-		if b.Dominates(check.Block()) && b != check.Block() {
+		isLoopHeader := false
+		for _, pb := range b.Preds {
+			if b.Dominates(pb) {
+				isLoopHeader = true
+			}
+		}
+		if isLoopHeader && b.Dominates(check.Block()) && b != check.Block() {
 			for _, s := range check.Block().Succs {
 				if s == b || reaches(s, b, nil) {
 					if header == nil || header.Dominates(b) {
